@@ -83,6 +83,9 @@ func c15Check(c C15Case, cx *h.Ctx) *h.Failure {
 	g := model.ToGeom()
 	cx.Class("type=" + model.T)
 	cx.Class("family=" + c.Family)
+	if c.Shape != "" {
+		cx.Class("shape=" + c.Shape)
+	}
 	desc := func() string { return "\ng = " + clip(model.String(), 700) }
 
 	// Dimension / IsEmpty agree with the structure
